@@ -27,17 +27,18 @@
 /* ------------------------------------------------------------------ native */
 extern int qv_failed;
 long long qv_witness(const char *name, long long dflt);
+long long qv_witness_t(const char *type, const char *name, long long dflt);
 #define QV_ASSUME(c) do { if (!(c)) { printf("REPLAY: assumption not met: %s\n", #c); fflush(stdout); exit(77); } } while (0)
 #define QV_ASSERT(c, msg) do { if (!(c)) { printf("REPLAY-FAILED: %s\n", msg); fflush(stdout); qv_failed = 1; } } while (0)
 #define QV_REACH(msg) do { } while (0)
 #define QV_END() do { } while (0)
-#define QV_IN(type, name) type name = (type) qv_witness(#name, 0)
+#define QV_IN(type, name) type name = (type) qv_witness_t(#type, #name, 0)
 #define QV_IN_BYTES(buf, n) do { for (size_t qv_i = 0; qv_i < (size_t)(n); qv_i++) { \
         char qv_nm[96]; snprintf(qv_nm, sizeof qv_nm, "%s[%zu]", #buf, qv_i); \
         ((unsigned char *)(buf))[qv_i] = (unsigned char) qv_witness(qv_nm, 0); } } while (0)
 #define QV_R_OK(p, n) ((p) != NULL)
 #define QV_W_OK(p, n) ((p) != NULL)
-#define QV_SAME_OBJECT(a, b) (1)
+#define QV_SAME_OBJECT(a, b) ((const void *)(a) == (const void *)(b))   /* approximation: same address */
 #define QV_POINTER_OFFSET(p) (0)
 #define QV_OBJECT_SIZE(p) (0)
 #define QV_IS_FREED(p) (1)          /* cannot be observed natively; ASan reports the misuse instead */
